@@ -13,6 +13,7 @@ from typing import List
 from crosshair.tracers import NoTracing
 
 from vt import lift, rt, world
+from vt.lift import RealFallback
 from vt.core import digits, shard, tick
 from vt.harness import hist
 from vt.harness.gc import R, Repository, exceptions, fresh_repo, users
@@ -29,7 +30,7 @@ def _say(*a):
 
 
 # =========================================================================== S: selection logic of the restore plan
-class _PlanSelf:
+class _PlanSelf(RealFallback):
     _compile_or_none = Repository._compile_or_none
 
     def __init__(self):
